@@ -626,6 +626,68 @@ func genC15(tier string) []Scenario {
 		st.SampleLog = []string{"struct `item` then slice `item` (same printed name), slice `elem` then struct `elem`, twice"}
 		return st
 	}})
+	// the caller CHANGES a stored slice or map in place between two reads (same backing array, same
+	// length; or refills a re-used buffer and sets it again): every read is a view of what the value
+	// holds now — equal to the result accessor applied to the current value
+	out = append(out, Scenario{Name: "accessors stored value changed in place between reads", Direct: func(deadline time.Time) *core.Stats {
+		st := &core.Stats{ByCost: map[int]int64{}, Outcomes: map[string]int64{}}
+		type mutable struct {
+			name   string
+			fresh  func() any
+			mutate func(v any) any // changes v in place; returns the value to Set again (nil: no re-Set)
+		}
+		muts := []mutable{
+			{"[]int element overwritten", func() any { return []int{1, 2, 3} }, func(v any) any { v.([]int)[0] = 9; return nil }},
+			{"[]string element overwritten", func() any { return []string{"a", "b"} }, func(v any) any { v.([]string)[1] = "z"; return nil }},
+			{"[]any element overwritten", func() any { return []any{1, "x"} }, func(v any) any { v.([]any)[0] = 2.5; return nil }},
+			{"[]float64 buffer refilled and set again", func() any { return []float64{1, 2} }, func(v any) any { b := v.([]float64); b = append(b[:0], 7, 8); return b }},
+			{"[]int buffer refilled and set again", func() any { return []int{1, 2, 3} }, func(v any) any { b := v.([]int); b = append(b[:0], 4, 5, 6); return b }},
+			{"map[string]any value overwritten", func() any { return map[string]any{"a": 1} }, func(v any) any { v.(map[string]any)["a"] = 2; return nil }},
+			{"map[string]any key swapped", func() any { return map[string]any{"a": 1} }, func(v any) any {
+				m := v.(map[string]any)
+				delete(m, "a")
+				m["b"] = 1
+				return nil
+			}},
+		}
+		for _, mu := range muts {
+			for fi := range families {
+				f := &families[fi]
+				for reads := 1; reads <= 3; reads++ {
+					store := flyt.NewSharedStore()
+					v := mu.fresh()
+					store.Set("k", v)
+					for i := 0; i < reads; i++ {
+						f.get(store, "k")
+						f.getOr(store, "k", f.def)
+					}
+					if again := mu.mutate(v); again != nil {
+						store.Set("k", again)
+						v = again
+					}
+					want, ok := f.as(flyt.NewResult(v))
+					g, gOr := f.get(store, "k"), f.getOr(store, "k", f.def)
+					var pr []string
+					if ok && (!f.eq(g, want) || !f.eq(gOr, want)) {
+						pr = append(pr, fmt.Sprintf("%s, after %d read(s): store Get%s = %s / Get%sOr = %s, the result accessor on the current value gives %s", mu.name, reads, f.name, sh(g), f.name, sh(gOr), sh(want)))
+					}
+					if !ok && (!f.eq(g, f.zero) || !f.eq(gOr, f.def)) {
+						pr = append(pr, fmt.Sprintf("%s, after %d read(s): store Get%s = %s / Get%sOr = %s, want zero value / default", mu.name, reads, f.name, sh(g), f.name, sh(gOr)))
+					}
+					if len(pr) > 0 && len(st.Violations) < 10 {
+						st.Violations = append(st.Violations, core.Violation{Msgs: pr, Log: pr})
+					}
+					st.Executions++
+					st.Transitions += int64(2*reads + 4)
+					st.Outcomes[fmt.Sprintf("%s/%s/%v", mu.name, f.name, ok)]++
+				}
+			}
+		}
+		st.TreeNodes = int64(len(muts))
+		st.ByCost[0] = st.Executions
+		st.SampleLog = []string{"Set(k, a); GetSlice(k); a[0] = 9; GetSlice(k) gives [9 2 3]"}
+		return st
+	}})
 	const chunks = 16
 	for c := 0; c < chunks; c++ {
 		c := c
